@@ -707,12 +707,13 @@ CONV_KIND = {'cf1d': 'generic', 'cf2d': 'generic', 'ugrid': 'generic',
 def add_time_candidates(ds, cands: list, nt: int, tdim: str = 'time'):
     """cands: [(name, encoding-units | None, is_datetime, as_coord)] appended in order"""
     import xarray as xr
-    for name, units, is_dt, as_coord in cands:
+    for name, units, is_dt, as_coord, *more in cands:
+        scalar = bool(more and more[0])      # a snapshot: the time variable has no dimension at all
         if is_dt:
             data = np.array([np.datetime64('2000-01-01T00:00:00', 's') + np.timedelta64(k, 'D') for k in range(nt)])
         else:
             data = np.arange(nt, dtype='f8')
-        da = xr.DataArray(data, dims=[tdim])
+        da = xr.DataArray(data[0], dims=[]) if scalar else xr.DataArray(data, dims=[tdim])
         if units is not None:
             da.encoding['units'] = units
             if is_dt:
@@ -763,6 +764,7 @@ def timecoord_case(recipe: dict, cands: list, tdim: str, tmp: str) -> dict:
         c.to_netcdf(out)
         with netCDF4.Dataset(raw) as a, netCDF4.Dataset(out) as b:
             changed = [n for n in a.variables if getattr(a.variables[n], 'units', None) != getattr(b.variables[n], 'units', None)]
+            res['out_units'] = {n: getattr(b.variables[n], 'units', None) for n in b.variables}
         res['saved'] = changed[0] if len(changed) == 1 else ('-' if not changed else 'MANY ' + ','.join(changed))
     except Exception as e:
         res['saved'] = 'ERR'
@@ -775,17 +777,20 @@ def timecoord_stream(ctx, batch: Batch) -> None:
     pending = []     # (line tail, impl discovery, impl save outcome, desc)
     tmp = tempfile.mkdtemp(prefix='c17tc')
     try:
-        for k in range(ctx.budget(40, 300)):
+        for k in range(ctx.budget(100, 400)):
             conv = G.CONVS[k % len(G.CONVS)]
             recipe = G.random_recipe(rng, conv, 'quick', **({'holes': False} if conv not in ('ugrid', 'cf1d') else {}))
-            names = rng.sample(['time', 't', 'record', 'Time', 'date', 'ocean_time', 'tt'], rng.randint(0, 4))
+            names = rng.sample(['time', 't', 'record', 'Time', 'date', 'ocean_time', 'tt'], rng.choice([0, 1, 1, 1, 2, 3, 4]))
             cands = []
             for name in names:
                 units = rng.choice([None, 'days since 1990-01-01', 'days since 1990-01-01 00:00:00 +10:00', 'days',
                                     'hours since 2000-01-01 12:00:00', 'since', 'hours Since 2000-01-01', 'sincerely'])
                 is_dt = rng.random() < 0.7
-                cands.append((name, units, is_dt, rng.random() < 0.5 and name == 'time'))
+                cands.append([name, units, is_dt, rng.random() < 0.5 and name == 'time', rng.random() < 0.4])
             tdim = rng.choice(['time', 'time', 'record', 't'])
+            for cd in cands:
+                if cd[0] in (tdim, 'time', 't', 'record') or cd[3]:
+                    cd[4] = False       # xarray: a dimension name cannot also be a scalar variable
             if k < len(G.CONVS):
                 # smallest case first: a `time` dimension carried by one data variable, no time variable
                 cands, tdim = [], 'time'
@@ -802,6 +807,17 @@ def timecoord_stream(ctx, batch: Batch) -> None:
                 else:
                     ctx.oracle_fail(sig, desc, f"{res['class']}.to_netcdf raised {res['error']} on a dataset with dimensions "
                                                f"{res['dims']} and variables {res['order']} that plain xarray writes fine")
+            # direct statement for the unambiguous case: the dataset's only time variable (decoded datetimes, CF
+            # time units), of whatever shape, leaves the save with units EMS reads
+            clear = [cd for cd in cands if cd[2] and cd[1] and re.match(r'^\w+ since \d', cd[1])]
+            if len(clear) == 1 and sum(1 for cd in cands if cd[2]) == 1 and res.get('out_units') \
+                    and conv not in ('shoc_standard', 'shoc_simple'):
+                ctx.evaluated()
+                u = res['out_units'].get(clear[0][0]) or ''
+                if not re.fullmatch(r'\w+ since \d{4}-\d\d-\d\d \d\d:\d\d:\d\d [+-]\d\d:\d\d', u):
+                    ctx.oracle_fail('time-units-not-ems-form', desc,
+                                    f"the only time variable {clear[0][0]!r} ({'scalar' if clear[0][4] else 'along ' + tdim}) "
+                                    f"was saved with units {u!r}")
             pending.append((res['tail'], res['got'], res['saved'], desc))
             ctx.nontrivial(('timecoord', conv, tdim, tuple(map(tuple, cands))))
             ctx.count(f'timecoord:{conv}:' + ('found' if res['got'] != '-' else 'none'))
@@ -857,8 +873,19 @@ def roundtrip_recipe(ctx, conv: str) -> dict:
         if sp['sep'] not in ('T', ' '):
             sp['sep'] = ' '
         break
-    return {'recipe': recipe, 'case': case, 'tname': time_name_for(conv, rng),
-            'mode': rng.choice(['memory', 'file']), 'step': rng.randint(1, 5), 'as_coord': rng.random() < 0.6}
+    rt = {'recipe': recipe, 'case': case, 'tname': time_name_for(conv, rng),
+          'mode': rng.choice(['memory', 'file']), 'step': rng.randint(1, 5), 'as_coord': rng.random() < 0.6}
+    # in-memory encodings that xarray itself normalises when it writes the file (what ends up in the file is the
+    # input of the rewrite): an offset whose hour field is not padded; an integer storage type too coarse for the
+    # time steps, for which xarray switches to a finer unit
+    c = rng.random()
+    if c < 0.25 and sp['tz'] == 'colon' and case['off'] != 0 and abs(case['off']) < 600:
+        sp['tz'] = 'colon1'
+        sp['tzsep'] = ' '
+    elif c < 0.5 and case['period'] in ('days', 'hours', 'minutes'):
+        rt['enc_dtype'] = rng.choice(['int32', 'int64'])
+        rt['fine'] = True
+    return rt
 
 
 def poly_key(p):
@@ -879,6 +906,8 @@ def run_roundtrip(ctx, rt: dict, tmp: str) -> list:
     nt = int(ds.sizes.get('time', recipe.get('sizes_extra', {}).get('time', 2)))
     utc0 = TU.utc_instant(case)
     step = dt.timedelta(seconds=TU.UNIT_SECONDS[case['period']] * rt['step'])
+    if rt.get('fine'):
+        step = step / 4 if case['period'] == 'days' else step / 60
     try:
         instants = [utc0 + k * step for k in range(nt)]
     except OverflowError:
@@ -889,6 +918,8 @@ def run_roundtrip(ctx, rt: dict, tmp: str) -> list:
     da = xr.DataArray(data, dims=['time'], attrs={'long_name': 'Time'})
     units_in = TU.spell(case)
     da.encoding.update({'units': units_in, 'calendar': case['calendar']})
+    if rt.get('enc_dtype'):
+        da.encoding['dtype'] = np.dtype(rt['enc_dtype'])
     tname = rt['tname']
     if rt['as_coord'] and tname == 'time':
         ds = ds.assign_coords({tname: da})
@@ -970,7 +1001,10 @@ def run_roundtrip(ctx, rt: dict, tmp: str) -> list:
     # -- the rewritten units: model and oracle
     if expect_found:
         rcase = dict(case, sp={'sep': 'T', 'tzsep': '', 'tz': 'colon', 'seconds': True, 'pad': True})
-        oracle_units(ctx, raw_cal, raw_units, esc(out_units), case if TU.utc_instant(case) == TU.utc_instant(rcase) else None,
+        # (with an integer storage type xarray may have switched to a finer unit and a UTC reference: the file's
+        # units, not the in-memory ones, are then what the rewrite has to preserve)
+        oracle_units(ctx, raw_cal, raw_units, esc(out_units),
+                     case if TU.utc_instant(case) == TU.utc_instant(rcase) and not rt.get('enc_dtype') else None,
                                {'op': line, **desc})
         items.append((line, esc(out_units), {'op': line, **desc}))
     else:
@@ -990,7 +1024,12 @@ def run_roundtrip(ctx, rt: dict, tmp: str) -> list:
     if type(c2) is not type(c):
         ctx.oracle_fail('convention-changed', desc, f'{type(c).__name__} saved, {type(c2).__name__} detected after reopening')
         return items
-    polys2 = [poly_key(p) for p in c2.polygons]
+    try:
+        polys2 = [poly_key(p) for p in c2.polygons]
+    except Exception as e:
+        ctx.oracle_fail('polygons-unreadable-after-roundtrip', desc,
+                        f'{type(c2).__name__}.polygons of the reopened file raised {type(e).__name__}: {str(e)[:200]}')
+        return items
     if polys2 != src_polys:
         bad = next((k for k, (a, b) in enumerate(zip(src_polys, polys2)) if a != b), None)
         ctx.oracle_fail('polygons-changed', desc, f'polygon {bad} differs after the round trip ({len(src_polys)} -> {len(polys2)} cells)')
